@@ -1,6 +1,6 @@
 (** C09 — the hypotheses of the main theorems are satisfiable by non-trivial states; sample runs of the model. *)
 From Coq Require Import List Bool NArith PArith Lia.
-From TLXV Require Import Common.Order C09.LoserTree C09.Tournament C09.VOrder C09.Invariant C09.Spec C09.Winner C09.Final C09.UnguardedGeneral.
+From TLXV Require Import Common.Order C09.LoserTree C09.Tournament C09.VOrder C09.Invariant C09.Spec C09.Winner C09.Final C09.UnguardedGeneral C09.BuildOrder C09.RegOrder.
 Import ListNotations.
 Local Open Scope N_scope.
 
@@ -98,4 +98,18 @@ Proof.
   - exists 1, 1. split; reflexivity.
   - vm_compute. reflexivity.
   - vm_compute. reflexivity.
+Qed.
+
+(** registration in descending order (player 0 last): the guarded copy class floods the key copies with the key of
+    player 2, the first one registered; the invariant holds all the same and the winner is the same *)
+Example ex_order_desc :
+  TInv N.ltb 0 0 CGS (lt_build_order N.ltb 0 CGS 0 [Some 2; Some 1; Some 3] [2; 1; 0]) [Some 2; Some 1; Some 3] /\
+  lt_min_source 0 CGS (lt_build_order N.ltb 0 CGS 0 [Some 2; Some 1; Some 3] [2; 1; 0]) = 1 /\
+  run_oN false CGS 0 [2; 0; 1] [[2; 5]; [1; 4]; [3]] = run_N CGS 0 [[2; 5]; [1; 4]; [3]].
+Proof.
+  split; [|split; vm_compute; reflexivity].
+  apply build_order_TInv; [exact SWO_N|cbn; lia|discriminate|].
+  split; intros i Hi; cbn in *.
+  - assert (Hc : i = 0 \/ i = 1 \/ i = 2) by lia. destruct Hc as [Hc|[Hc|Hc]]; subst i; auto.
+  - destruct Hi as [Hc|[Hc|[Hc|Hc]]]; [subst i; lia|subst i; lia|subst i; lia|contradiction].
 Qed.
